@@ -195,6 +195,37 @@ func c19Describe(v any) string {
 	return fmt.Sprintf("%T", v)
 }
 
+// c19ArgsOK: would a direct call f(args...) type-check? (Go assignability only)
+func c19ArgsOK(args []any, ins []reflect.Type, variadic bool) bool {
+	mand := len(ins)
+	if variadic {
+		mand--
+	}
+	if variadic {
+		if len(args) < mand {
+			return false
+		}
+	} else if len(args) != mand {
+		return false
+	}
+	for i, a := range args {
+		var pt reflect.Type
+		if i < mand {
+			pt = ins[i]
+		} else {
+			pt = ins[len(ins)-1].Elem()
+		}
+		if a == nil {
+			if !c19Nilable(pt.Kind()) {
+				return false
+			}
+		} else if !reflect.TypeOf(a).AssignableTo(pt) {
+			return false
+		}
+	}
+	return true
+}
+
 func TestC19Callable(t *testing.T) {
 	st := vkit.For("c19_callable")
 	rapid.Check(t, func(t *rapid.T) {
@@ -466,7 +497,8 @@ func TestC19Callable(t *testing.T) {
 		expectCall := argsOK && resOK
 
 		// ---- options in a drawn order
-		opts := []bigbuff.CallOption{bigbuff.CallArgs(args...)}
+		argsOpt := bigbuff.CallArgs(args...)
+		opts := []bigbuff.CallOption{argsOpt}
 		var resOpt bigbuff.CallOption
 		switch resMode {
 		case "results":
@@ -499,6 +531,47 @@ func TestC19Callable(t *testing.T) {
 		}
 		if !resOK {
 			shape += "+badres"
+		}
+
+		// ---- optionally the very same CallArgs option value is also applied to a second callable of another
+		// signature (before or after the main call): an option must not carry anything over between calls
+		reuse := rapid.SampledFrom([]string{"no", "no", "before", "after"}).Draw(t, "reuseArgsOption")
+		var checkReuse func()
+		if reuse != "no" {
+			n2 := rapid.IntRange(0, 3).Draw(t, "nIn2")
+			var2 := n2 > 0 && rapid.IntRange(0, 2).Draw(t, "variadic2") == 0
+			ins2 := make([]reflect.Type, n2)
+			same := rapid.IntRange(0, 2).Draw(t, "sameSig") == 0
+			if same {
+				ins2, var2 = ins, variadic
+			} else {
+				for i := range ins2 {
+					ins2[i] = c19Types[rapid.IntRange(0, c19ParamTypes-1).Draw(t, "in2")].t
+				}
+				if var2 {
+					ins2[n2-1] = reflect.SliceOf(ins2[n2-1])
+				}
+			}
+			calls2 := 0
+			fn2 := reflect.MakeFunc(reflect.FuncOf(ins2, nil, var2), func([]reflect.Value) []reflect.Value { calls2++; return nil })
+			callable2 := bigbuff.NewCallable(fn2.Interface())
+			ok2 := c19ArgsOK(args, ins2, var2)
+			trace = append(trace, fmt.Sprintf("reuse=%s sig2=%v expectCall2=%v", reuse, fn2.Type(), ok2))
+			checkReuse = func() {
+				res2, pv2 := vkit.Call(func() any { return bigbuff.Call(callable2, argsOpt) })
+				if pv2 != nil {
+					vkit.Fail(t, "C19/panic/option-reuse", "Call panicked when a CallArgs option value was applied to a second callable: %v\ncase: %v", pv2, trace)
+				}
+				if ok2 && (res2 != nil || calls2 != 1) {
+					vkit.Fail(t, "C19/option-reuse", "the same CallArgs option applied to a second, compatible callable: error %v, invoked %d times (expected a call)\ncase: %v", res2, calls2, trace)
+				}
+				if !ok2 && (res2 == nil || calls2 != 0) {
+					vkit.Fail(t, "C19/option-reuse", "the same CallArgs option applied to a second, incompatible callable: error %v, invoked %d times (expected an error and no call)\ncase: %v", res2, calls2, trace)
+				}
+			}
+			if reuse == "before" {
+				checkReuse()
+			}
 		}
 
 		// ---- run
@@ -614,6 +687,10 @@ func TestC19Callable(t *testing.T) {
 			if err != nil && strings.TrimSpace(err.Error()) == "" {
 				vkit.Fail(t, "C19/empty-error", "error without description\ncase: %v", trace)
 			}
+		}
+
+		if checkReuse != nil && reuse == "after" {
+			checkReuse()
 		}
 
 		nontrivial := (variadic || nIn >= 2) && (anyNil || perturbed)
